@@ -28,6 +28,10 @@ def b4 := hdr 4 3 4 19
 /-- valid sibling of b4 with a lower hash -/
 def b5 := hdr 5 3 4 15
 
+/-- breaks a header rule (height 3 on a parent of height 1): used to show that an invalid block
+    that arrives BEFORE its parent is dropped when the parent arrives -/
+def bx := hdr 6 1 3 16
+
 def mta (ts : Nat) : Meta := { ts := ts, signer := some 0, future := false, bad := false }
 def coinbase (tx out amount : Nat) : Tx :=
   { id := tx, ins := [], outs := [{ id := out, kind := .normal, amount := amount }] }
@@ -36,10 +40,10 @@ def coinbase (tx out amount : Nat) : Tx :=
 def init : NodeLedger.State :=
   let s := NodeLedger.State.init { epoch := 2, nVal := 1, me := none } {} g []
   { s with
-    node := { s.node with defs := [b5, b4, b3, b2, b1, g] },
-    metas := [(5, mta 4000), (4, mta 4000), (3, mta 3000), (2, mta 2000), (1, mta 1000),
+    node := { s.node with defs := [bx, b5, b4, b3, b2, b1, g] },
+    metas := [(6, mta 2000), (5, mta 4000), (4, mta 4000), (3, mta 3000), (2, mta 2000), (1, mta 1000),
               (0, { ts := 0, signer := none, future := false, bad := false })],
-    blockTxs := [(5, [coinbase 6 6 0]),
+    blockTxs := [(6, [coinbase 7 7 0]), (5, [coinbase 6 6 0]),
                  (4, [coinbase 4 4 0, { id := 5, ins := [3], outs := [{ id := 5, kind := .normal, amount := 90 }] }]),
                  (3, [coinbase 3 3 100]), (2, [coinbase 2 2 0]), (1, [coinbase 1 1 0]), (0, [])] }
 
